@@ -24,7 +24,22 @@ pub fn judge_rebackup(t: &Tree, opts: &BOpts, tag: &str, scratch: &Scratch) -> V
     tree::materialize(t, &src);
     let arch = scratch.fresh("a");
     run::do_create_archive(&arch);
-    let out = run::do_backup(&arch, &src, opts, run::NOHOOK, Flavor::Current);
+    let icpt0 = Icpt::new(&arch, Plan::none());
+    let out = run::do_backup(&arch, &src, opts, Some(&icpt0), Flavor::Current);
+    // Within the one run already: no write is issued for a block that is there (a refused
+    // create-new attempt is work done again too), and none twice.
+    let mut seen = std::collections::BTreeSet::new();
+    for r in icpt0.take_log() {
+        if r.verb == Verb::Write && r.path.starts_with("d/") {
+            if matches!(r.pre, Pre::File(n) if n > 0) || !seen.insert(r.path.clone()) {
+                v.push(Violation::new(
+                    "C14:block-content-written-again-within-one-backup",
+                    format!("{tag}: a write was issued for {} which this backup had already stored ({})", r.path, out.describe()),
+                ));
+                break;
+            }
+        }
+    }
     if !out.clean_success() {
         return v; // C01's business
     }
